@@ -423,6 +423,28 @@ class Anchors:
                                 cb = self.p.by_path.get(st[1][8:])
                                 if cb:
                                     hits.append((cb, s))
+            if not hits:
+                # the constructor hands the closure to a crate-local helper whose parameter is
+                # what it submits to the pool (`fn execute<F>(&self, job: F)`)
+                for s in self.p.sites(b):
+                    cb0 = self.p.callee_body(s)
+                    if cb0 is None or cb0.is_closure():
+                        continue
+                    sub = [x for x in self.p.sites(cb0) if x.ck in POOL_EXEC or x.ck in THREAD_SPAWN]
+                    params = set()
+                    for x in sub:
+                        for ai in range(len(x.term["args"])):
+                            for st in subterms(self.p.bp(cb0).arg_term(x.bb, ai)):
+                                if st[0] == "param":
+                                    params.add(st[1])
+                    bp = self.p.bp(b)
+                    for pi in params:
+                        if pi - 1 < len(s.term["args"]):
+                            for st in subterms(bp.arg_term(s.bb, pi - 1)):
+                                if st[0] == "agg" and st[1].startswith("closure:"):
+                                    cb = self.p.by_path.get(st[1][8:])
+                                    if cb:
+                                        hits.append((cb, s))
             if len(hits) != 1:
                 raise AnchorMissing("reducer-thread closure (found %d)" % len(hits))
             return hits[0]
